@@ -25,7 +25,7 @@ func TestInstances(t *testing.T) {
 		m := corpus6.NewMessage(1, [3]byte{1, 2, 3}, o)
 		b := m.ToBytes()
 		rt, v, why := v6ref.DecodeMessage(b)
-		if v != v6ref.Accept {
+		if !v.HasTree() {
 			t.Errorf("%s: ref %v %s (%x)", in.Name, v, why, b)
 			continue
 		}
@@ -75,7 +75,7 @@ func TestMessages(t *testing.T) {
 		m := mc.Build()
 		b := m.ToBytes()
 		rt, v, why := v6ref.DecodeMessage(b)
-		if v != v6ref.Accept {
+		if !v.HasTree() {
 			t.Errorf("%s: ref %v %s", mc.Name, v, why)
 			continue
 		}
